@@ -132,11 +132,15 @@ func c18Main(args []string) int {
 	fs := flag.NewFlagSet("C18", flag.ExitOnError)
 	procs := fs.Int("procs", runtime.NumCPU(), "worker processes")
 	only := fs.String("scenario", "", "scenario prefix")
+	replay := fs.String("replay", "", "replay a violation artefact")
 	fs.Parse(args)
 	scs := c18Scenarios()
 	if fs.NArg() > 0 && fs.Arg(0) == "worker" {
 		sched.WorkerMain(scs)
 		return 0
+	}
+	if *replay != "" {
+		return sched.ReplayFile("C18", scs, *replay)
 	}
 	rep := common.NewReport("C18", "model_checking")
 	pre, sd, budget, shards := 1, 2, 60.0, 4
